@@ -194,6 +194,10 @@ class Uniform(Prior):
         name : string or None, optional
             The name of the parameter.
         """
+        if any(np.iscomplexobj(x) for x in (lower_bound, upper_bound, guess)):
+            raise ParameterSpecificationError(
+                    "Bounds {} and {} and guess {} must be real".format(
+                    lower_bound, upper_bound, guess))
         if not lower_bound < upper_bound:  # also catches nan bounds
             raise ParameterSpecificationError(
                     "Lower bound {} is not less than upper bound {}".format(
@@ -267,13 +271,14 @@ class Gaussian(Prior):
         """
         self.mu = mu
         self.sd = sd
-        if not sd > 0 or np.isinf(sd):
+        # (numpy complex numbers can be compared, and 1j is finite)
+        if np.iscomplexobj(sd) or not sd > 0 or np.isinf(sd):
             raise ParameterSpecificationError(
                     "Specified sd of {} is not greater than 0 and "
                     "finite".format(sd))
-        if not np.isfinite(mu):
+        if np.iscomplexobj(mu) or not np.isfinite(mu):
             raise ParameterSpecificationError(
-                    "Specified mean of {} is not finite".format(mu))
+                    "Specified mean of {} is not real and finite".format(mu))
         self.name = name
         self._lnprob_normalization = -np.log(self.sd * np.sqrt(2*np.pi))
 
@@ -328,6 +333,10 @@ class BoundedGaussian(Gaussian):
             The name of the parameter.
         """
 
+        if any(np.iscomplexobj(x) for x in (mu, lower_bound, upper_bound)):
+            raise ParameterSpecificationError(
+                "Mean {}, lower bound {} and upper bound {} must be "
+                "real".format(mu, lower_bound, upper_bound))
         # (written so that nan bounds are rejected as well)
         if not lower_bound <= mu <= upper_bound or lower_bound == upper_bound:
             raise ParameterSpecificationError(
